@@ -15,6 +15,8 @@ EXPLANATION = (
     "by the two audited functions, set_settings is called once; (e) both incremental readers clear their `bytes needed` "
     "memo after every successful decode (sibling cross-check). Arrival-order/chunking independence of the varint "
     "reader's arithmetic is value-level and not decided.")
+# every anchor of these rules lives in the h3 crate: thorough tier repeats them on the feature-less build
+EXTRA_CONFIGS = ["h3-plain"]
 RULES = "C04-a control dispatch tables (A3); C04-b stream classification (A3); C04-c frame acted on exactly once (A8); C04-d who may claim slots (A10); C04-e memo cleared (A2); C04-f varint decoded only when complete (A5)"
 
 CI = "h3::connection::ConnectionInner::"
